@@ -525,4 +525,40 @@ theorem queue_monitor_no_duplicates (es : List QEv) (m' : QMon)
     (h : ({} : QMon).run es = .ok m') : (deliveredOf es).Nodup :=
   NetVerif.Proofs.MonitorSound.queue_monitor_no_duplicates es m' h
 
+/-! ## Non-vacuity: concrete reachable configurations -/
+
+def runQ (c : QConfig) : List (Nat × QAct) → Option QConfig
+  | [] => some c
+  | (i, a) :: r => match c.step queue gate i a with
+    | some c' => runQ c' r
+    | none => none
+
+theorem reachable_runQ {c c' : QConfig} (steps : List (Nat × QAct)) (h : QReachable queue gate c)
+    (hr : runQ c steps = some c') : QReachable queue gate c' := by
+  induction steps generalizing c with
+  | nil => simp [runQ] at hr; subst hr; exact h
+  | cons s r ih =>
+    obtain ⟨i, a⟩ := s
+    simp only [runQ] at hr
+    split at hr
+    · rename_i c1 hs; exact ih (QReachable.step h hs) hr
+    · simp at hr
+
+/-- Goroutine 1 calls `get` and blocks in `waitAndLock` (default arm taken: the queue is empty);
+goroutine 0 runs a whole `put 7` (lock from `unset`, defer, check, append, return, deferred unlock
+with the recomputed condition = true).  Afterwards the gate is free, the token is in `set`, the
+item is queued, and the blocked getter is exactly in the situation of `queue_blocked_get_wakes`. -/
+def demoQ : List (Nat × QAct) :=
+  [(1, .call .get 0), (1, .stmt), (1, .gate (.run .dflt)),
+   (0, .call .put 7), (0, .stmt), (0, .gate (.run (.arm 1))), (0, .stmt), (0, .stmt), (0, .stmt),
+   (0, .stmt), (0, .stmt), (0, .gate (.run (.arm 0))), (0, .stmt)]
+
+example : ∃ c, QReachable queue gate c ∧ qholders c.gs = 0 ∧ c.sh.q = [7] ∧ c.sh.accepted = [7] ∧
+    (c.σ .set).len = 1 ∧
+    ∃ qg, c.gs[1]? = some qg ∧ qg.g.meth = .waitAndLock ∧ qg.g.cont ≠ [] := by
+  have hs : (runQ (QConfig.init gate 2) demoQ).isSome = true := by rfl
+  refine ⟨(runQ (QConfig.init gate 2) demoQ).get hs, ?_, by rfl, by rfl, by rfl, by rfl, ?_⟩
+  · exact reachable_runQ demoQ (QReachable.init 2) (Option.some_get hs).symm
+  · exact ⟨_, rfl, rfl, by decide⟩
+
 end NetVerif.Proofs.C29
